@@ -17,7 +17,7 @@ ROWS = [
     ("new", "graph/creation.rs (+ edge.rs, adjacent_node.rs value constructors)", "Creation.new / mkedge", "WF_new (C01)", "value", "TYPE", "-"),
     ("add_node", "graph/creation.rs", "Creation.add_node", "C20_add_node_never_panics (WF g)", "Ok", "FULL", "-"),
     ("add_nodes", "graph/creation.rs", "Creation.add_nodes", "C01_history_from_new (every step of every history: no Panic, no fuel)", "Ok", "FULL", "-"),
-    ("add_edge", "graph/creation.rs", "Creation.add_edge", "C20_add_edge_never_panics (WF g); error kinds C01_add_edge_refines", "Ok / Err by policy", "FULL", "-"),
+    ("add_edge", "graph/creation.rs", "Creation.add_edge", "C20_add_edge_never_panics (WF g); error kinds C01_model_add_edge_refines, C01_error_kinds", "Ok / Err by policy", "FULL", "-"),
     ("add_edges", "graph/creation.rs", "Creation.add_edges", "C01_history_from_new, C01_batch_prefix", "Ok / Err by policy", "FULL", "-"),
     ("add_edge_tuple", "graph/creation.rs", "Creation.add_edge_tuples (one pair)", "C01_history_from_new (tuples reduce to add_edge)", "Ok / Err by policy", "FULL", "-"),
     ("add_edge_tuples", "graph/creation.rs", "Creation.add_edge_tuples", "C01_history_from_new", "Ok / Err by policy", "FULL", "-"),
@@ -107,8 +107,8 @@ ROWS = [
     ("bfs_equal_size_partitions", "components/weak_connectivity.rs", "Components.bfs_equal_size_partitions", "NEW C20_total_bfs_equal_size_partitions <- C10_equal_size_total_wf (k >= 1, C20's own quantifier)", "no channel: Ok", "FULL", "k = 0 is outside C20's quantifier"),
     ("is_partition", "community/partitions.rs", "Partition.is_partition", "NEW C20_total_is_partition <- is_partition_WF (ANY family of lists)", "bool", "FULL", "-"),
     ("modularity", "community/partitions.rs", "Partition.modularity", "NEW C20_modularity_outcomes (ANY weights: Ok / NotAPartition / the one model-domain site), NEW C20_total_modularity_partial (no negative weight: Ok / NotAPartition) <- C12 state theorems", "Ok / NotAPartition", "PART", "weighted = true with a negative weight such that the total weight is 0 while a community term is not: the code computes with inf, the exact model reports a model-domain site"),
-    ("louvain_partitions", "community/louvain.rs", "Louvain.louvain_partitions (level fuel, sweep fuel, shuffle table = arguments of the model)", "NEW C20_total_louvain_partial <- C13_never_out_of_fuel, C13_levels_partition_nested", "Ok, never hangs", "PART", "NOT proved: no Panic site is reached (internal unwraps; shuffle oracle well formed). Hypotheses: no negative weight when weighted, resolution >= 0, level fuel > N, sweep fuel >= N^N"),
-    ("louvain_communities", "community/louvain.rs", "Louvain.louvain_communities", "NEW C20_total_louvain_partial (returns the last level whenever louvain_partitions returns: never NoPartitions)", "Ok", "PART", "as louvain_partitions"),
+    ("louvain_partitions", "community/louvain.rs", "Louvain.louvain_partitions (level fuel, sweep fuel, shuffle table = arguments of the model)", "NEW C20_total_louvain_partial <- NEW Proofs/LouvainTotal.v (convert_graph, generate_graph, modularity on level graphs, level loop, convert_back never reach a Panic site) + C13_never_out_of_fuel machinery (level_total, LInv_step)", "Ok (the Result is never Err), never hangs", "PART", "hypotheses C20 does not grant: weighted = true needs every edge weighted and no negative weight (NaN weight / total weight 0 with non-zero terms: model-domain sites; other negative weights return), resolution >= 0 (a negative one returns in the evaluated example). Fuel: level > N, sweep >= N^N; shuffle oracle well formed"),
+    ("louvain_communities", "community/louvain.rs", "Louvain.louvain_communities", "NEW C20_total_louvain_partial (returns the last level: never NoPartitions)", "Ok", "PART", "as louvain_partitions"),
     ("complete_graph", "generators/classic.rs", "Classic.complete_graph", "NEW C20_total_complete_graph <- C16_generators_wf_total (EVERY i32 n)", "no channel: Ok, result WF", "FULL", "-"),
     ("karate_club_graph", "generators/social.rs", "Classic.karate_club_graph on the re-extracted literal", "NEW C20_total_karate_club_graph <- C16_karate_graph", "Ok, result WF", "FULL", "-"),
     ("fast_gnp_random_graph", "generators/random.rs", "Gnp.fast_gnp_random_graph (the seed's skips = the stream gaps, its length = the fuel)", "NEW C20_total_fast_gnp_random_graph <- C16_rejects_p, gnp_pairs_total, gnp_graph_ok + n < 0 (EVERY i32 n, EVERY f64 p)", "Ok / InvalidArgument, no Panic site; Ok once the stream has gnp_slots + 1 entries", "FULL", "gaps >= 0 is a property of the oracle (quotient of two non-positive logarithms)"),
